@@ -918,6 +918,110 @@ def vfree_all(n):
     return out
 
 
+# ---------------------------------------------------------------------------------------------
+# density sampling of Boolean combinations whose measure is known exactly, directly and THROUGH motion nodes
+
+def rect(var, x0, y0, w, h, flip=False):
+    o, c1, c2 = [x0, y0], [x0 + w, y0], [x0, y0 + h]
+    if flip:
+        c1, c2 = c2, c1
+    return Node("par", var, [PF([c(a) for a in o]), PF([c(a) for a in c1]), PF([c(a) for a in c2])])
+
+
+def make_bool_case(ctx, idx):
+    """two shapes with an exactly known overlap (axis-parallel rectangles, concentric discs, intervals), combined WITHOUT
+    declaration, optionally wrapped in translations / rotations (also nested)"""
+    rng = ctx.rng
+    kind = rng.choice(["rect", "rect", "rect", "disc", "interval"])
+    if kind == "rect":
+        x0, y0 = dy(rng, -2, 2), dy(rng, -2, 2)
+        w, h = dy(rng, 1, 3), dy(rng, 1, 3)
+        fx, fy = Fr(rng.randint(1, 7), 8), Fr(rng.randint(0, 6), 8)
+        w2, h2 = dy(rng, 1, 3), dy(rng, 1, 3)
+        bx, by = x0 + fx * w, y0 + fy * h
+        A, B = rect("x", x0, y0, w, h, rng.random() < 0.5), rect("x", bx, by, w2, h2, rng.random() < 0.5)
+        ix = max(Fr(0), min(x0 + w, bx + w2) - max(x0, bx))
+        iy = max(Fr(0), min(y0 + h, by + h2) - max(y0, by))
+        mA, mB, mI, var = float(w * h), float(w2 * h2), float(ix * iy), "x"
+    elif kind == "disc":
+        cx, cy = dy(rng, -1, 1), dy(rng, -1, 1)
+        r1, r2 = dy(rng, 1, 2), dy(rng, 0.5, 2.5)
+        A = Node("circle", "x", [PF([c(cx), c(cy)]), PF([c(r1)])])
+        B = Node("circle", "x", [PF([c(cx), c(cy)]), PF([c(r2)])])
+        mA, mB = math.pi * float(r1) ** 2, math.pi * float(r2) ** 2
+        mI, var = min(mA, mB), "x"
+    else:
+        l, w = dy(rng, -2, 1), dy(rng, 1, 3)
+        l2, w2 = l + Fr(rng.randint(1, 7), 8) * w, dy(rng, 1, 3)
+        A = Node("interval", "y", [PF([c(l)]), PF([c(l + w)])])
+        B = Node("interval", "y", [PF([c(l2)]), PF([c(l2 + w2)])])
+        mA, mB, var = float(w), float(w2), "y"
+        mI = float(max(Fr(0), min(l + w, l2 + w2) - max(l, l2)))
+    op = rng.choice(["union", "cut", "inter"])
+    node = Node(op, None, [], [A, B], {})
+    wraps = rng.choice([[], ["m"], ["m"], ["m", "m"], ["rotate"] if var == "x" else ["m"]])
+    vg = VGen(rng, [])
+    for wkind in wraps:
+        if wkind == "rotate":
+            co, si = rng.choice(ROTS)
+            node = Node("rotate", var, [PF([c(co), c(-si), c(si), c(co)]), PF([c(dy(rng, -1, 1)), c(dy(rng, -1, 1))])], [node])
+        else:
+            node = vg.motion(node, var)
+    target = rng.choice([300, 600, 1000])
+    d = Fr(round(target / max(mA, mB) * 4), 4)
+    return dict(id=idx, mode="bool-density", dom=node.describe(), op=op, mA=mA, mB=mB, mI=mI, density=str(d), params=[], envs=[])
+
+
+def check_bool_density(case, rep):
+    tp = common.use_repo()
+    import torch
+    node = geomgen.from_json(case["dom"])
+    op, mA, mB, mI = case["op"], case["mA"], case["mB"], case["mI"]
+    d = float(Fr(case["density"]))
+    inp = dict(mode="bool-density", dom=case["dom"], expression=vtokens(node), op=op, mA=mA, mB=mB, mI=mI, density=case["density"],
+               params=[], envs=[])
+    wrapped = "+".join(k for k in kinds(node) if k in ("translate", "rotate")) or "plain"
+    rep.count(f"bool-density:{op}:{wrapped}")
+    nA, nB = math.ceil(d * mA - 1e-6), math.ceil(d * mB - 1e-6)
+    if op == "union":
+        p = mI / mB
+        mean, var_, true, upper = nA + nB * (1 - p), nB * p * (1 - p), mA + mB - mI, nA + nB + 2
+    elif op == "cut":
+        p = mI / mA
+        mean, var_, true, upper = nA * (1 - p), nA * p * (1 - p), mA - mI, nA + 1
+    else:
+        p = mI / mA
+        mean, var_, true, upper = nA * p, nA * p * (1 - p), mI, nA + 1
+    tol = 8 * math.sqrt(var_ + 1) + 3
+    try:
+        dom = vto_tp(node, tp)
+    except Exception as e:  # noqa
+        rep.count("construction-raised")
+        return
+    torch.manual_seed(case["id"])
+    for how in ("random", "grid"):
+        fn = dom.sample_random_uniform if how == "random" else dom.sample_grid
+        with warnings.catch_warnings():
+            warnings.simplefilter("ignore")
+            try:
+                got = len(common.call_with_timeout(10, fn, d=d))
+            except common.CallTimeout:
+                rep.count("bool-density-timeout")
+                continue
+            except Exception as e:  # noqa
+                if how == "grid":
+                    rep.count("bool-density-grid-raised")
+                    continue
+                rep.fail(f"random sampling with density {d} of a {op} (measure {true:.5g}) raised {type(e).__name__}: {str(e)[:120]}", dict(inp, how=how))
+                continue
+        if how == "random" and abs(got - mean) > tol:
+            rep.fail(f"density sampling (d = {d}) of the {op} of two shapes with |A| = {mA:.5g}, |B| = {mB:.5g}, |A∩B| = {mI:.5g}"
+                     f"{' through ' + wrapped if wrapped != 'plain' else ''} returned {got} points; d*measure = {d * true:.1f}, "
+                     f"expected {mean:.1f} +- {tol:.1f}", dict(inp, how=how))
+        elif got > upper:
+            rep.fail(f"{how} density sampling (d = {d}) of a {op} returned {got} points, more than the {upper} proposals", dict(inp, how=how))
+
+
 def fixed_cases():
     """regression inputs of the defects repaired in /repo (they run first, in every tier)"""
     def P(kind, var, *vecs):
@@ -975,6 +1079,12 @@ def run(ctx, rep, cases=None):
                                               model=rs[0][1], verdict="ok" if (nf, nd) == (len(rep.failures), len(rep.disagreements)) else "differs"),
                  kind=cs["mode"])
     if poly:
+        for i in range(ctx.scale(90, 900)):
+            cs = make_bool_case(ctx, 500000 + i)
+            nf = len(rep.failures)
+            check_bool_density(cs, rep)
+            rep.case(dict(dom=cs["dom"], d=cs["density"]), True, sample=dict(expression=vtokens(geomgen.from_json(cs["dom"])), op=cs["op"],
+                     density=cs["density"], verdict="ok" if nf == len(rep.failures) else "fails"), kind="bool-density")
         # ShapelyPolygon / TrimeshPolyhedron: oracles only (opaque geometry kernels, not in the Lean model)
         c10_poly.run_poly(ctx, rep)
 
@@ -983,6 +1093,9 @@ def replay(ctx, obj):
     rep = common.Report(ctx)
     lean = common.lean_check("C10")
     inp = (obj.get("failing_input") or obj.get("first"))["input"]
+    if inp.get("mode") == "bool-density":
+        check_bool_density(dict(inp, id=0), rep)
+        return common.finish(ctx, rep, lean)
     if "poly" in inp:
         c10_poly.check(dict(inp, id=0), rep)
         return common.finish(ctx, rep, lean)
